@@ -257,6 +257,46 @@ func c06R1(c *Ctx, rule string) {
 			sv = append(sv, layoutEntry{k, k + 1, enc, what, x})
 		}
 	}
+	// integers decoded by shifts or fold loops: one big-endian field instead of the bytes / byte entries of their parts
+	for _, bf := range beValueScan(dec, spt) {
+		if _, isCall := bf.Val.(*ssa.Call); isCall {
+			continue // binary.BigEndian.UintN: classified above
+		}
+		var kept []layoutEntry
+		for _, e := range sv {
+			if v, ok := e.at.(ssa.Value); ok && bf.Parts[v] {
+				continue
+			}
+			kept = append(kept, e)
+		}
+		what := dest(bf.Val)
+		feeds := func(v ssa.Value) bool {
+			if v.Referrers() == nil {
+				return false
+			}
+			for _, r := range *v.Referrers() {
+				if isCall(r, "time.Unix") {
+					return true
+				}
+				if cv, isCv := r.(*ssa.Convert); isCv && cv.Referrers() != nil {
+					for _, r2 := range *cv.Referrers() {
+						if isCall(r2, "time.Unix") {
+							return true
+						}
+					}
+				}
+			}
+			return false
+		}
+		if feeds(bf.Val) {
+			what = "timestamp"
+		}
+		var at ssa.Instruction
+		if in, ok := bf.Val.(ssa.Instruction); ok {
+			at = in
+		}
+		sv = append(kept, layoutEntry{bf.Lo, bf.Lo + bf.N, fmt.Sprintf("BE%d", bf.N*8), what, at})
+	}
 	sort.Slice(sv, func(i, j int) bool { return sv[i].lo < sv[j].lo })
 	c.Check(layoutString(sv) == spec, rule, "server plaintext table = v2 table", c.atFn(dec), layoutString(sv), "server reads {"+layoutString(sv)+"}, the v2 authentication block is {"+spec+"}")
 	f1, ok1 := p.Const("internal/client", "UNORDERED_FLAG")
